@@ -419,14 +419,8 @@ def run(ck):
                     want = any(given) and all((not g_) or m_ for g_, m_ in zip(given, member))
                     ck.ob(R5, f"{rcm.fid} :: given={given} member={member}", bool(got) == want,
                           f"documented {want}; code {bool(got)}", rcm, rcm.node)
-        p3 = tdc.methods.get('_parse3')
-        norm7 = any(isinstance(x, ast.IfExp) and norm(x.test) in ('x == 0', '0 == x') and
-                    is_const(x.body, 7) and norm(x.orelse) == 'x' for x in own_nodes(p3.node))
-        rng = any(isinstance(x, ast.Compare) and norm(x) == '0 <= x <= 7' for x in own_nodes(p3.node))
-        ck.ob(R5, f"{p3.fid} :: weekday normalisation", norm7 and rng,
-              "0 and 7 both mean Sunday and are stored as 7 = isoweekday(); 0..7 accepted" if norm7 and rng
-              else "weekday numbers are not normalised to the isoweekday() convention (Sunday = 7)",
-              p3, p3.node)
+        from rules.shared import weekdays_run
+        weekdays_run(ck, R5)
         tsc = prog.cls(TS)
         rct = tsc.methods.get('recalc')
         so = [x for x in own_nodes(rct.node) if isinstance(x, ast.Call) and call_name(x) == 'set_output']
